@@ -11,11 +11,14 @@ import itertools
 
 from .. import gen as G
 from .. import irutil, kinds
-from ..astkinds import ZERO, AstKindProp, canon_for_model, pres_diff, unify_none
+from ..astkinds import ZERO, AstKindProp, canon_for_model, entry_ops, pres_diff, unify_none
 from ..common import exc_kind
 from .c01 import classify_ir as classify_doc_ir
 
 ALL_CHAINS = [list(c) for n in (2, 3) for c in itertools.permutations(kinds.KINDS, n)]  # 42 pairs + 210 triples
+
+
+AST_ONLY_CHAINS = [c for c in ALL_CHAINS if all(k in ("class", "function", "method") for k in c)]  # 6 pairs + 6 triples
 
 
 def model_kind(k, inline):
@@ -36,25 +39,30 @@ class C05(AstKindProp):
 
     def gen(self, r, i, run):
         irj = G.gen_ir(r, rich=r.random() < 0.4, p_typ=1.0 if r.random() < 0.75 else 0.85, p_doc=1.0 if r.random() < 0.75 else 0.85, returns=r.random() < 0.3)
-        chain = ALL_CHAINS[i % len(ALL_CHAINS)] if run.tier == "thorough" else r.choice(ALL_CHAINS)
+        chain = ALL_CHAINS[i % len(ALL_CHAINS)] if run.tier == "thorough" else r.choice(ALL_CHAINS if r.random() < 0.75 else AST_ONLY_CHAINS)
         if "argparse" in chain:
             from ..astkinds import C04
 
             irj = C04.restrict(self, irj, r)
-        c = {"ir": irutil.ir_to_json(irj), "chain": chain, "inline": r.random() < 0.4, "opts": {}}
+        # default text in the docstring part of the class/function/argparse artefacts on or off (docstring kinds always
+        # write it: without it they cannot carry a default at all)
+        c = {"ir": irutil.ir_to_json(irj), "chain": chain, "inline": r.random() < 0.4, "opts": {}, "edd": r.random() < 0.6}
+        run.dist["default_text_in_ast_kinds"][c["edd"]] += 1
         run.dist["chain_len"][len(chain)] += 1
         for k in chain:
             run.dist["kind_on_chain"][k] += 1
         return c
 
     def describe(self, c):
-        return {"chain": c["chain"], "inline": c["inline"], "ir": c["ir"]}
+        return {"chain": c["chain"], "inline": c["inline"], "edd": c.get("edd", True), "ir": c["ir"]}
 
     def run_chain(self, c):
         ir = self.py_ir(c["ir"])
         cur = ir
         for k in c["chain"]:
             o = {"inline_types": c["inline"]} if k in ("function", "method") else {}
+            if k in kinds.AST_KINDS:
+                o["emit_default_doc"] = c.get("edd", True)
             cur = kinds.conv(k, cur, o)
         return ir, cur
 
@@ -62,16 +70,22 @@ class C05(AstKindProp):
         op = {"op": "norm_chain", "kinds": [model_kind(k, c["inline"]) for k in c["chain"]], "ir": unify_none(c["ir"])}
         arg = "argparse" in c["chain"]
         self._arg = arg
+        back_j = None
         try:
             _, back = self.run_chain(c)
-            impl = {"ok": canon_for_model(irutil.ir_to_json(back), arg)}
+            back_j = irutil.ir_to_json(back)
+            impl = {"ok": canon_for_model(back_j, arg)}
         except Exception as e:
             impl = {"raises": exc_kind(e)}
-        return [("norm_chain", dict(op, _arg=arg), impl)]
+        res = [("norm_chain", dict(op, _arg=arg), impl)]
+        if back_j is not None:
+            res += entry_ops(c["ir"], back_j, op["kinds"], c["chain"], arg)
+        return res
 
     def canon_model(self, layer, op, ans):
         if "ok" in ans:
-            return {"ok": canon_for_model(ans["ok"], op.get("_arg", False))}
+            j = dict(ans["ok"], doc="") if layer.startswith("entry_") else ans["ok"]
+            return {"ok": canon_for_model(j, op.get("_arg", False))}
         return ans
 
     def oracle(self, c, run):
@@ -99,7 +113,7 @@ class C05(AstKindProp):
     def code_breaks(self, c, is_return, typ, code):
         from ..astkinds import code_breaks_roundtrip
 
-        return any(code_breaks_roundtrip(k, is_return, typ, code, True) for k in c["chain"])
+        return any(code_breaks_roundtrip(k, is_return, typ, code, c.get("edd", True) if k in kinds.AST_KINDS else True) for k in c["chain"])
 
     def model_in_domain(self, c):
         key = json.dumps([c["chain"], c["inline"], c["ir"]], sort_keys=True)
@@ -112,44 +126,82 @@ class C05(AstKindProp):
     def setup(self, run):
         self._driver = run.driver
 
-    def classify(self, c, fl):
-        ir = c["ir"]
-        chain = c["chain"]
-        base = AstKindProp.classify(self, {"ir": ir, "opts": {}, "chain": chain}, fl)
-        if base:
-            return base
-        for k in chain:
-            if k in ("numpydoc", "google"):
-                f = classify_doc_ir(ir, k, True)
-                if f:
-                    return f
+    scoped_excuses = True
+    ALL = {"typ", "prose", "default", "absent"}
+
+    def entry_domains(self, c):
+        """which entries, taken alone, leave the regular domain of a kind on the chain (one model query per entry)"""
+        key = json.dumps([c["chain"], c["inline"], c["ir"]], sort_keys=True)
+        if getattr(self, "_ek", None) != key:
+            ir = c["ir"]
+            ks = [model_kind(k, c["inline"]) for k in c["chain"]]
+            ents = [(n, {"doc": "", "params": [[n, p]], "returns": None}) for n, p in ir["params"]]
+            if ir["returns"] is not None:
+                ents.append(("return_type", {"doc": "", "params": [], "returns": ir["returns"]}))
+            ans = self._driver.run([{"op": "norm_chain", "kinds": ks, "ir": copy.deepcopy(j)} for _, j in ents])
+            self._ev = {n for (n, _), a in zip(ents, ans) if "ok" not in a}
+            self._ek = key
+        return self._ev
+
+    def explain(self, c):
+        from ..astkinds import C02, C03, C04, _entries
+        from .c01 import _dot_outside_brackets, _is_code
+
+        ir, chain = c["ir"], c["chain"]
+        sub = {"ir": ir, "opts": {"inline_types": c["inline"]}, "chain": chain, "edd": c.get("edd", True), "inline": c["inline"]}
+        out = AstKindProp.explain(self, sub)
+        ents = _entries(ir)
+        if any(k in ("numpydoc", "google") for k in chain) and any("typ" not in p for _, p, _ in ents):
+            # numpydoc/google do not read an entry without a type as an entry: it and everything after it end up in
+            # the summary, the parameters are gone
+            out.append(("AST-untyped-entry", {}, {"order", "summary", "lost"}))
+        if any(k in ("rest", "numpydoc", "google") for k in chain):
+            for n, p, _ in ents:
+                d = p.get("default")
+                if d is None:
+                    continue
+                if _is_code(d):
+                    out.append(("C17-code-default-unquoted", {n: {"default", "typ", "prose"}}, set()))
+                if d["t"] == "str" and _dot_outside_brackets(d["v"]):
+                    out.append(("C17-D5-dot-in-value", {n: {"default", "prose", "typ"}}, set()))
+        if any(k in ("numpydoc", "google") for k in chain):
+            # D7: an entry without default that follows a defaulted one gets one invented (on a chain an earlier kind
+            # may already have given every parameter a default)
+            seen = False
+            names = {}
+            for n, p, is_ret in ents:
+                if "default" not in p and (seen or len(chain) > 1) and not n.endswith("kwargs"):
+                    names[n] = {"absent", "default", "typ", "prose"}  # (an invented '' leaves a dangling "Defaults to")
+                if "default" in p:
+                    seen = True
+            if names:
+                out.append(("C01-D7-default-invented-after-defaulted", names, set()))
+        if "google" in chain and ir["returns"] is not None:
+            out.append(("C01-D8-google-return-type-as-prose", {"return_type": {"typ", "prose", "absent", "default"}}, {"lost"}))
         if "argparse" in chain:
-            from ..astkinds import C04
-
-            f = C04.classify_kind(self, {"ir": ir, "opts": {}}, fl)
-            if f and f != "C04-return-entry":
-                return f
+            out += [e for e in C04.explain_kind(self, {"ir": ir, "opts": {}}) if e[0] != "C04-return-entry"]
             if ir["returns"] is not None and "default" in ir["returns"]:
-                return "C04-return-entry"
+                out.append(("C04-return-entry", {"return_type": {"default", "typ"}}, {"lost"}))
         if "class" in chain:
-            from ..astkinds import C02
+            out += C02.explain_kind(self, {"ir": ir, "opts": {}})
+        if any(k in ("function", "method") for k in chain):
+            out += C03.explain_kind(self, {"ir": ir, "opts": {"inline_types": c["inline"]}})
+        bad = self.entry_domains(c)
+        if bad:
+            # an entry that, taken alone, is outside what some kind on the chain carries faithfully (after the
+            # normalisation of the kinds before it)
+            out.append(("C05-intermediate-description-leaves-next-kinds-domain", {n: self.ALL for n in bad}, {"lost"} if "return_type" in bad else set()))
+        if out and any(k in ("numpydoc", "google") for k in chain):
+            # an entry in trouble reaches numpydoc/google without a type, prose or default (or with text their scanners
+            # do not read as an entry): the entries are not recognised, their text ends up in the summary
+            out.append(("C05-intermediate-description-leaves-next-kinds-domain", {}, {"order", "summary", "lost"}))
+        return out
 
-            f = C02.classify_kind(self, {"ir": ir, "opts": {}}, fl)
-            if f:
-                return f
-        if any(k in ("function", "method") for k in chain) and c["inline"]:
-            from ..astkinds import C03
-
-            f = C03.classify_kind(self, {"ir": ir, "opts": {"inline_types": True}}, fl)
-            if f:
-                return f
-        if ir["returns"] is not None and "default" in ir["returns"]:
-            return "C03-return-default"
-        if not self.model_in_domain(c):
-            # every entry is fine for every kind taken alone, but an intermediate description (after the
-            # normalisation of one kind) is outside what the next kind carries faithfully
-            return "C05-intermediate-description-leaves-next-kinds-domain"
-        return None
+    def classify(self, c, fl):
+        if isinstance(fl, dict) and fl.get("what") == "chain raised":
+            ex = self.explain(c)
+            return ex[0][0] if ex else None
+        return AstKindProp.classify(self, c, fl)
 
 
 PROP = C05()
